@@ -319,8 +319,27 @@ class UpdateContract(Contract):
         def post_ok(c):
             i = info(c)
             pre, post = c.pre, c.post
-            out = [("C02:matches", pyeq(post.sel("View", i["n"]), bs.plain(iv(c, pre, c.b["data"])))),
+            matches = pyeq(post.sel("View", i["n"]), bs.plain(iv(c, pre, c.b["data"])))
+            if c.mode == "prove" and i["kind"] == "list" and post.ghost.get("i0") is not None:
+                # the function ends with straight-line code: the arbitrary Skolem index of the loop invariant is
+                # bound to the extensionality witness of the FINAL view here (late binding, see tree.list_update_witness)
+                from contracts import tree as T
+                matches = z3.Implies(smt.and_(T.list_update_witness(post.sel("View", i["n"]), dval(c), post.ghost["i0"])),
+                                     matches)
+            out = [("C02:matches", matches),
                    ("alloc", post.g["Alloc"] >= pre.g["Alloc"])]
+            i1 = post.ghost.get("i1") if c.mode == "prove" else None
+            if i1 is not None and i["kind"] == "list":
+                from contracts import tree as T
+                d0 = Val.addr(pre.rec(i["obj"]).fields["_data"].term)
+                c0, c1 = pre.sel("Cell", d0), post.sel("Cell", d0)
+                st_ = pre.copy()
+                st_.loc = {"self": i["obj"]}
+                J = smt.VInt(i1)
+                out.append(("C02:identity", z3.Implies(
+                    z3.And(i1 >= 0, i1 < bs.list_len(c0), i1 < bs.list_len(dval(c)),
+                           T.keeps_identity(c.eng, st_, bs.list_get(c0, J), z3.BoolVal(True), bs.list_get(dval(c), J))),
+                    bs.list_get(c1, J) == bs.list_get(c0, J))))
             k0 = post.ghost.get("k1") if c.mode == "prove" else None
             if k0 is not None and i["kind"] == "dict":
                 from contracts import tree as T
